@@ -591,15 +591,28 @@ class StmtMixin:
             st.heap[k] = a
 
     def check_frame(self, head, st, declared, what):
+        """heap fields changed by the loop body must be declared in the loop contract, except for writes to objects that the
+        body itself allocated (their cells are unconstrained in the loop-head state anyway)"""
         for k, a in st.heap.items():
-            if k not in head.heap or head.heap[k] is not a:
-                base = k.split("@")[0]
-                if "alloc" in declared and False:
-                    pass
-                if not any(d.split("@")[0] == base for d in declared):
-                    if k in head.heap or True:
-                        if not (k in head.heap and z3.eq(head.heap[k], a)):
-                            raise Unsupported("%s modifies heap field %s which its loop contract does not declare (modifies=[...])" % (what, k))
+            base_arr = head.heap.get(k, self.init_heap.get(k))
+            if base_arr is not None and z3.eq(base_arr, a):
+                continue
+            base = k.split("@")[0]
+            if any(d.split("@")[0] == base for d in declared):
+                continue
+            t = a
+            ok = True
+            while z3.is_store(t):
+                idx = t.arg(1)
+                if self.feasible(st, idx < head.top):
+                    ok = False
+                    break
+                t = t.arg(0)
+            if ok and base_arr is not None and z3.eq(t, base_arr):
+                continue
+            if ok and base_arr is None and z3.is_const(t):
+                continue
+            raise Unsupported("%s modifies heap field %s of a pre-existing object, which its loop contract does not declare (modifies=[...])" % (what, k))
         for k, v in st.glob.items():
             if k not in head.glob or head.glob[k] is not v:
                 if ("global:" + k) not in declared:
